@@ -71,9 +71,9 @@ func routeIndex(tb *Table, name string) int {
 // which oracle reports.
 func runRouting(e *Env, params bool) {
 	if !params {
-		e.Rule = "route tables (1..12 routes; up to 40 in the thorough tier) drawn from a pattern AST (literal/var/prefix+var+suffix segments, 15 regex classes incl. built-in and user-defined global vars and inline regexes on global-named variables, nested optional tails, bare literal tails, '.' in literals; random method subsets; overlapping patterns derived from earlier ones), cache off/on; probes = instantiations, one-step mutations and class near-misses of every pattern + random paths, x 9 methods, lower-case and unknown method tokens, via Match and ServeHTTP. Oracle: backtracking matcher over the AST + documented priority (static, literal-first-segment group, rest; earliest wins). A probe is non-trivial when >= 2 routes qualify or it is a near-miss/mutation of a registered pattern; distinct by (table, method, path)."
+		e.Rule = "route tables (1..12 routes; up to 40 in the thorough tier) drawn from a pattern AST (literal/var/prefix+var+suffix segments, 15 regex classes incl. built-in and user-defined global vars and inline regexes on global-named variables, nested optional tails, bare literal tails, '.' in literals; random method subsets; overlapping patterns derived from earlier ones), cache off/on; probes = instantiations, one-step mutations and class near-misses of every pattern + random paths, x 9 methods, lower-case and unknown method tokens, via Match and ServeHTTP. Oracle: backtracking matcher over the AST + documented priority (static, literal-first-segment group, rest; earliest wins). A probe is non-trivial when >= 2 routes qualify or it is a near-miss/mutation of a registered pattern; distinct by (table, method, path). Also varied: a quarter of the routes with literal leading segments are registered inside one or two nested Group calls (inner prefix with or without its slash); options applied through New, WithOptions or half and half; a fifth of the routers use UseEncodedPath (the ServeHTTP side of the model works on URL.EscapedPath()) and a fifth StrictLastSlash; a third of the ServeHTTP probes carry a query string; probe mutations append 1..3 slashes and non-ASCII white space."
 	} else {
-		e.Rule = "same tables/probes as C01; every selected dynamic route's params are checked against ALL decompositions the AST matcher finds (key set == variable names, round trip reproduces the normalised path, each present value satisfies its class, unique decomposition => equal), static => no params, handler view == Match view, cache hit == miss. Non-trivial when the pattern has >= 2 vars, an optional part, a literal prefix/suffix in the variable's segment, or the observation is a cache hit; distinct by (pattern, method, path, hit)."
+		e.Rule = "same tables/probes as C01; every selected dynamic route's params are checked against ALL decompositions the AST matcher finds (key set == variable names, round trip reproduces the normalised path, each present value satisfies its class, unique decomposition => equal), static => no params, handler view == Match view, cache hit == miss. Non-trivial when the pattern has >= 2 vars, an optional part, a literal prefix/suffix in the variable's segment, or the observation is a cache hit; distinct by (pattern, method, path, hit). Also: re-dispatch probes (the handler of a dynamic route calls HandleContext for the path of another route; the second handler must see the parameters of its own match only)."
 	}
 	e.Assumptions = []string{
 		"patterns stay inside the documented grammar (<= 1 variable per segment, literals without regex metacharacters other than '.')",
